@@ -113,16 +113,20 @@ type boundsSite struct {
 	key  string // construct
 }
 
-func runC01(c *Ctx) {
+// initFactEngine prepares the global state of the linear-arithmetic fact engine for this program.
+func (c *Ctx) initFactEngine() {
 	feCtx = c
 	paramNonNegCache = map[*ssa.Parameter]int{}
 	prog = c.prog
 	cg = c.callgraph()
-	all := ssautil.AllFunctions(c.prog)
 	modSet = map[*ssa.Function]map[string]bool{}
 	valueByName = map[string]ssa.Value{}
 	fiByFn = map[*ssa.Function]*funcInfo{}
-	computeModSets(all)
+	computeModSets(ssautil.AllFunctions(c.prog))
+}
+
+func runC01(c *Ctx) {
+	c.initFactEngine()
 	bce := c.bceLog()
 
 	reach := c.reachable(c.readerRoots())
@@ -135,7 +139,7 @@ func runC01(c *Ctx) {
 	c.rep.Extra["reader_reachable_functions"] = len(fns)
 
 	// ---------------- bounds
-	c.boundsObligations(fns, bce)
+	c.boundsObligations(fns, bce, 400)
 	// ---------------- other panic sources
 	c.otherPanics(fns)
 	c.boxedDictInvariant(fns)
@@ -253,7 +257,7 @@ func (c *Ctx) valShapeD(v ssa.Value, d int) string {
 	return strings.TrimPrefix(fmt.Sprintf("%T", v), "*ssa.")
 }
 
-func (c *Ctx) boundsObligations(fns []*ssa.Function, bce map[string]bool) {
+func (c *Ctx) boundsObligations(fns []*ssa.Function, bce map[string]bool, floor int) {
 	total, byCompiler, byEngine := 0, 0, 0
 	matched := map[string]bool{}
 	mono := monotoneSlots(c)
@@ -350,7 +354,7 @@ func (c *Ctx) boundsObligations(fns []*ssa.Function, bce map[string]bool) {
 	c.rep.Extra["bounds_sites"] = total
 	c.rep.Extra["bounds_by_compiler"] = byCompiler
 	c.rep.Extra["bounds_by_fact_engine"] = byEngine
-	c.floor("PANIC-BOUNDS", 400)
+	c.floor("PANIC-BOUNDS", floor)
 }
 
 // canonFacts renders facts with shape names instead of SSA register names,
